@@ -1261,11 +1261,16 @@ def oracle_history(case):
             if other is not None:
                 require(type(other) is type(fresh), lambda: '%s: %s from the re-used objects, %s from copies of them' % (what, type(other).__name__, type(fresh).__name__))
                 o_out = read_outputs(other, Pin, case['order'] + 50 + k)
-                same_outputs(read_outputs(fresh, Pin, case['order'] + 50 + k), o_out,
-                             what + ': solution built from the re-used objects against the solution built from copies of them')
+                f_out = read_outputs(fresh, Pin, case['order'] + 50 + k)
                 ledger_add(ledger, 'the solution of operation %d:' % k, o_out)
-                others.append((k, other, o_out, Pin.copy()))
-                labels.add('again_judged')
+                if all(bool(np.all(np.isfinite(v[1]))) for v in f_out.values()):
+                    same_outputs(f_out, o_out, what + ': solution built from the re-used objects against the solution built from copies of them')
+                    others.append((k, other, o_out, Pin.copy()))
+                    labels.add('again_judged')
+                else:
+                    # what the caller's overwritten arrays hold need not be a problem at all (a Burgers vector along the normal for the
+                    # isotropic class, ...): answers that are not finite are not compared
+                    labels.add('again_not_finite')
         elif kind == 'eval':
             Q = positions(S, op['pts'])
             for nm in ('displacement', 'strain', 'stress'):
@@ -1989,8 +1994,8 @@ CLAUSES = [
                 'character angle, p A L k / mu nu, fields) is unchanged; identity orientation in a third of the cases'),
     Clause('forms', oracle_forms, g.forms_cases, quick=1200, thorough=30000,
            min_share={'accepted': 0.8, 'judged': 0.42, 'nt': 0.17, 'narrow_argument': 0.39, 'narrow_positions': 0.44, 'positions_at_dtype_limit': 0.13,
-                      'unsigned_argument': 0.045, 'narrow_T': 0.12, 'narrow_b': 0.14, 'narrow_m': 0.15, 'narrow_n': 0.15, 'narrow_uvw': 0.11, 'narrow_hkl': 0.11,
-                      'dt_f2': 0.09, 'dt_f4': 0.09, 'dt_i1': 0.06, 'dt_>i2': 0.03, 'dt_u1': 0.02, 'dt_bool': 0.008, 'dt_np_int': 0.035, 'caller_overwrote': 0.45,
+                      'unsigned_argument': 0.035, 'narrow_T': 0.1, 'narrow_b': 0.12, 'narrow_m': 0.13, 'narrow_n': 0.13, 'narrow_uvw': 0.09, 'narrow_hkl': 0.09,
+                      'dt_f2': 0.08, 'dt_f4': 0.08, 'dt_i1': 0.05, 'dt_>i2': 0.025, 'dt_u1': 0.012, 'dt_bool': 0.005, 'dt_np_int': 0.028, 'caller_overwrote': 0.45,
                       'closed_form': 0.16, 'rows_int': 0.08, 'rows_perm': 0.08, 'mn_axis': 0.18},
            max_share=_REF,
            desc='storage and input dtypes: Burgers vector, m, n, transform / axes, Miller indices and field points as float32 / float16 / '
